@@ -180,6 +180,19 @@ def _impl(tier, seed, search):
                     L.close('log-exp(edge)', np.asarray(r[0], float), qy_, 1e-6, max(1.0, float(np.max(np.abs(qy_)))), dict(q=qy_, kind=nm_), what='log(exp(q)) differs from q', sig='log-exp:edge')
                     nv_ = float(np.linalg.norm(qy_[1:])); wantexp_ = math.exp(qy_[0]) * np.r_[math.cos(nv_), qy_[1:] / nv_ * math.sin(nv_)]
                     L.close('exp(edge)', r[2], wantexp_, 1e-6, 1e-3 + float(np.max(np.abs(wantexp_))) * 1e-3, dict(q=qy_, kind=nm_), what='exp(q) is not e^s (cos|v|, v/|v| sin|v|) to 1e-9', sig='log-exp:edge')
+        # the class methods on unit-quaternion objects of either hemisphere: exp(log(q)) = q (not -q), log(exp(p)) = p for pure p with |v| up to pi
+        if i % 6 == 3:
+            qu_ = np.asarray(inputs.unitq(g), float); qu_ = qu_ if abs(qu_[0]) < 0.95 else np.r_[0.5, inputs.unit_axis(g) * math.sqrt(0.75)]
+            for sg_ in (1.0, -1.0):
+                qs_ = qu_ * sg_ * np.sign(qu_[0] if qu_[0] != 0 else 1.0)
+                ok, r = L.noraise('UQ.log.exp', lambda: np.asarray(UnitQuaternion(qs_, norm=False).log().exp().vec, float), dict(q=qs_), 'UnitQuaternion.log().exp()')
+                if ok: L.close('UQ: exp(log q) = q', r, qs_, 1e-6, 1.0, dict(q=qs_), what='exp(log(q)) is not q for a UnitQuaternion object' + (' with negative scalar part' if qs_[0] < 0 else ''), sig='UQ.log')
+            vp_ = inputs.unit_axis(g) * float(g.uniform(0.1, math.pi - 0.05))
+            ok, r = L.noraise('log(exp(pure))', lambda: np.asarray(Quaternion(np.r_[0.0, vp_]).exp().log().vec, float), dict(v=vp_), 'Quaternion.Pure(v).exp().log()')
+            if ok: L.close('log(exp(pure v)) = v', r, np.r_[0.0, vp_], 1e-6, max(1.0, float(np.linalg.norm(vp_))), dict(v=vp_), what='log(exp(p)) is not p for a pure quaternion with |v| < pi', sig='UQ.log')
+            qg_ = np.r_[float(g.uniform(-2, 2)), inputs.unit_axis(g) * float(g.uniform(0.3, 1.2))]
+            ok, r = L.noraise('log(exp(q)) general', lambda: np.asarray(Quaternion(qg_).exp().log().vec, float), dict(q=qg_), 'log(exp(q))')
+            if ok: L.close('log(exp(q)) (|v| 0.3 .. 1.2)', r, qg_, 1e-6, max(1.0, float(np.max(np.abs(qg_)))), dict(q=qg_), what='log(exp(q)) differs from q for a vector part of moderate length', sig='log-exp:moderate')
         # dual quaternions
         if i % 4 == 0:
             A = DualQuaternion(Quaternion(a / sa), Quaternion(c / sc)); B = DualQuaternion(Quaternion(d / sd), Quaternion(a / sa))
